@@ -109,8 +109,9 @@ def std_normal_lp(row):
 # ------------------------------------------------------------------------------------------------------------------
 # C04: row pairing
 # ------------------------------------------------------------------------------------------------------------------
-def pairing_harness(nctx, n, embedding, method):
-    """Flow(StubTransform, StandardNormal) : sample_and_log_prob / sample with nctx context rows (0 = no context)"""
+def pairing_harness(nctx, n, embedding, method, batch_size=None):
+    """Flow(StubTransform, StandardNormal) : sample_and_log_prob / sample with nctx context rows (0 = no context); batch_size: Distribution.sample's
+    batched generation path"""
     def run(h, ctx):
         tr = StubTransform()
         flow = Flow(tr, DN.StandardNormal([Dn]), embedding_net=StubEmbedding() if embedding else None)
@@ -128,7 +129,7 @@ def pairing_harness(nctx, n, embedding, method):
             else:
                 lp2 = flow.log_prob(s)
             return s, lp, lp2
-        return (flow.sample(n, context=c),)
+        return (flow.sample(n, context=c, batch_size=batch_size),)
 
     def post(h, ctx, value):
         s = value[0]
@@ -139,10 +140,12 @@ def pairing_harness(nctx, n, embedding, method):
             return
         draws = ctx.notes.get("random_draws", [])
         noise_ids = {}
+        off = 0
         for nm, d in draws:
             pd = P(d).reshape(-1, Dn)
             for r in range(pd.shape[0]):
-                for k in range(Dn): noise_ids[pd[r, k].get_id()] = (r, k)
+                for k in range(Dn): noise_ids[pd[r, k].get_id()] = (off + r, k)
+            off += pd.shape[0]
         erows = embed_rows(h.c, embedding)
         used = set()
         ok_pair = True
@@ -193,7 +196,7 @@ def pairing_harness(nctx, n, embedding, method):
         torch.manual_seed(int(inp.get("seed", 0)))
         if method == "sample_and_log_prob":
             return fl.sample_and_log_prob(n, context=c), fl, c
-        return (fl.sample(n, context=c),), fl, c
+        return (fl.sample(n, context=c, batch_size=batch_size),), fl, c
 
     def native_clauses(h, inp, r):
         res, fl, c = r
@@ -209,7 +212,7 @@ def pairing_harness(nctx, n, embedding, method):
                 lp2 = fl.log_prob(s)
             out["C04.returned-density-is-log_prob-of-the-sample"] = tuple(lp.shape) == tuple(lp2.shape) and bool(torch.allclose(lp, lp2, atol=1e-4))
         return out
-    hn = Harness(f"flow_pairing[{method},ctx_rows={nctx},n={n},embedding={embedding}]", run, post, native_call=native_call, native_clauses=native_clauses,
+    hn = Harness(f"flow_pairing[{method},ctx_rows={nctx},n={n},embedding={embedding}{',batch_size=' + str(batch_size) if batch_size else ''}]", run, post, native_call=native_call, native_clauses=native_clauses,
                  sample=lambda h, rng: {"context": rng.normal(size=(max(nctx, 1), 2)), "seed": np.array(int(rng.integers(0, 1000)))},
                  functions=[Flow._sample, Flow.sample_and_log_prob, Flow._log_prob, Distribution.sample, Distribution.log_prob, Distribution.sample_and_log_prob,
                             DN.StandardNormal._sample, DN.StandardNormal._log_prob])
@@ -350,6 +353,8 @@ def pairing_harnesses(tier):
                     hs.append(pairing_harness(nctx, n, emb, method))
         for nctx, n in ((1, 2), (2, 1), (2, 3)):
             hs.append(conditional_base_harness(method, nctx, n))
+    for nctx, n, bs in (((2, 3, 2), (0, 3, 2), (2, 2, 1)) if tier == "quick" else ((2, 3, 2), (0, 3, 2), (2, 2, 1), (3, 5, 2), (2, 4, 4), (1, 3, 2), (2, 5, 3))):
+        hs.append(pairing_harness(nctx, n, bool(nctx), "sample", batch_size=bs))
     return hs
 
 
